@@ -58,10 +58,10 @@ def handle (cmd : String) (args : List Sx) : String :=
     match t.bytes? with
     | some t => if braceOk t then "1" else "0"
     | none => "bad-op"
-  | "c19.trim", [lt, b, e] =>
-    match parseLT lt, b.bytes?, e.nat? with
-    | some lt, some b, some e => toString (trimLineTerminator lt b 0 e)
-    | _, _, _ => "bad-op"
+  | "c19.trim", [lt, b, s, e] =>
+    match parseLT lt, b.bytes?, s.nat?, e.nat? with
+    | some lt, some b, some s, some e => toString (trimLineTerminator lt b s e)
+    | _, _, _, _ => "bad-op"
   | "c19.print", [lt, only, pm, hay, rs, re, t, .list (.atom "names" :: ns), .list (.atom "table" :: tab)] =>
     match parseLT lt, only.bool?, pm.bool?, hay.bytes?, rs.nat?, re.nat?, t.bytes?, parseNames ns, tab.mapM parseCaps with
     | some lt, some only, some pm, some hay, some rs, some re, some t, some names, some tab =>
@@ -70,6 +70,18 @@ def handle (cmd : String) (args : List Sx) : String :=
       " ".intercalate ((printRecords lt only pm (slice hay rs re) st).map fun r =>
         optNat r.col ++ ":" ++ toHex r.text)
     | _, _, _, _, _, _, _, _, _ => "bad-op"
+  | "c19.sink", [lt, only, pm, inv, kind, hay, rs, re, t, .list (.atom "names" :: ns), .list (.atom "table" :: tab)] =>
+    -- one delivered line (matched or context callback); for a context line of an inverted search the table is
+    -- the matcher's answers on that line alone (cut at its content end), as `StandardSink::context` asks it
+    let kind? : Option LineKind := match kind with
+      | .atom "m" => some .matched
+      | .atom "c" => some .context
+      | _ => none
+    match parseLT lt, only.bool?, pm.bool?, inv.bool?, kind?, hay.bytes?, rs.nat?, re.nat?, t.bytes?, parseNames ns, tab.mapM parseCaps with
+    | some lt, some only, some pm, some inv, some kind, some hay, some rs, some re, some t, some names, some tab =>
+      " ".intercalate ((sinkLine lt only pm inv kind (fun _ pos => (tab[pos]?).join) names hay rs re t).map fun r =>
+        optNat r.col ++ ":" ++ toHex r.text)
+    | _, _, _, _, _, _, _, _, _, _, _ => "bad-op"
   | "c19.replace", [lt, hay, rs, re, t, .list (.atom "names" :: ns), .list (.atom "table" :: tab)] =>
     match parseLT lt, hay.bytes?, rs.nat?, re.nat?, t.bytes?, parseNames ns, tab.mapM parseCaps with
     | some lt, some hay, some rs, some re, some t, some names, some tab =>
